@@ -61,7 +61,7 @@ impl Sub for Sem {
         1500
     }
     fn strategy(&self, tier: Tier) -> BoxedStrategy<SemCase> {
-        (corpus_strategy(tier.pick(40, 160)), prop::collection::vec(query_strategy(3), 30..41), any::<bool>())
+        (corpus_strategy(160), prop::collection::vec(query_strategy(3), 30..41), any::<bool>())
             .prop_map(|(corpus, queries, merge_after)| SemCase { corpus, queries, merge_after })
             .boxed()
     }
@@ -69,7 +69,7 @@ impl Sub for Sem {
         vec![
             "segments>=2", "has_deletes", "docs>1024", "bool:term_union", "bool:term_intersection", "bool:must+should", "bool:multi_exclude", "bool:min_should_match>=2",
             "bool:should_promoted", "bool:with_all", "bool:with_empty", "leaf:phrase_slop", "leaf:phrase_prefix", "leaf:fuzzy", "leaf:regex", "leaf:range:inum", "leaf:range:ip",
-            "leaf:exists", "dismax", "merged_recheck", "sorted",
+            "leaf:exists", "dismax", "merged_recheck", "sorted", "docs>4096",
         ]
     }
     fn run(&self, c: &SemCase, cx: &Ctx) -> CaseResult {
